@@ -58,6 +58,21 @@ macro_rules! run_map {
             .map_infix(|a: Value, op: Pair<'_, u8>, b: Value| json!({"t": "in", "k": op.as_rule(), "p": pos(&op), "a": a, "b": b}))
             .parse($pairs)
     };
+    // one map used for two parses in a row (a map may be reused): the answers must be the same
+    ($parser:expr, $pairs:expr, twice) => {{
+        let mut m = $parser
+            .map_primary(|p: Pair<'_, u8>| json!({"t": "n", "p": pos(&p)}))
+            .map_prefix(|op: Pair<'_, u8>, a: Value| json!({"t": "pre", "k": op.as_rule(), "p": pos(&op), "a": a}))
+            .map_postfix(|a: Value, op: Pair<'_, u8>| json!({"t": "post", "k": op.as_rule(), "p": pos(&op), "a": a}))
+            .map_infix(|a: Value, op: Pair<'_, u8>, b: Value| json!({"t": "in", "k": op.as_rule(), "p": pos(&op), "a": a, "b": b}));
+        let first = m.parse($pairs.clone());
+        let second = m.parse($pairs);
+        if first == second {
+            second
+        } else {
+            json!({"t": "reuse", "first": first, "second": second})
+        }
+    }};
 }
 
 /// `a | b | c ...` for the members of one level, associated in one of three ways (the table is the same
@@ -91,7 +106,7 @@ fn run_pratt(t: &Tab, toks: &[u8]) -> Result<Value, String> {
             let op = chain(lv.iter().map(|k| mk_op(*k, &t[*k - 1].0)).collect(), toks.len() + t.len());
             p = p.op(op);
         }
-        run_map!(p, pairs_of(&input, toks))
+        run_map!(p, pairs_of(&input, toks), twice)
     })
 }
 
@@ -101,7 +116,7 @@ fn const_run<const N: usize>(ops: Vec<(Op<u8>, bool)>, input: &str, toks: &[u8])
         Err(_) => panic!("harness: wrong operator count"),
     };
     let p = ConstPrattParser::<u8, N>::new_const(arr);
-    run_map!(p, pairs_of(input, toks))
+    run_map!(p, pairs_of(input, toks), twice)
 }
 
 fn run_const(t: &Tab, toks: &[u8]) -> Result<Value, String> {
